@@ -106,8 +106,13 @@ def _postarget(u):
     return (u > 0.0).astype(float)
 
 
-def _ndset(mat, **k):
-    # preference: smallest sum of (minimised) objectives
+def _ndset(mat, kind="negsum", col=0, **k):
+    # declared preference over the non-dominated set; default: smallest sum of (minimised) objectives
+    mat = numpy.asarray(mat, dtype=float)
+    if kind == "column":
+        return mat[:, col % mat.shape[1]].copy()
+    if kind == "spread":
+        return mat.max(1) - mat.min(1)
     return -mat.sum(1)
 
 
@@ -138,6 +143,7 @@ def generate(R, tier):
             "mo": R.random() < 0.3, "exact": R.random() < 0.6, "seed": R.randrange(1 << 31), "entropy_world": R.randrange(1000),
             "rng": {"kind": R.choice(["Generator", "RandomState"]), "seed": R.randrange(1 << 30),
                     "script": ([] if R.random() < 0.6 else [{"method": "shuffle", "mode": R.choice(["identity", "reverse", "rotate"])}])},
+            "ndset": {"wt": R.choice([1.0, 1.0, -1.0, 0.5, -2.0]), "kind": R.choice(["negsum", "negsum", "column", "spread"]), "col": R.randint(0, 2)},
             "perm": R.randrange(1 << 30), "ngen": R.randint(1, 3), "pop": R.choice([6, 8]), "unique_parents": R.random() < 0.7}
 
 
@@ -203,7 +209,8 @@ def _protocol(sc, g, ntr):
     if fam == "febv":
         nlat = 0                      # latent vector also carries one entry per family: single objective only
     if sc["mo"] and nlat >= 2:
-        kw.update(nobj=nlat, obj_wt=numpy.ones(nlat), ndset_wt=1.0, ndset_trans=_ndset, moalgo=MO[enc](ngen=sc["ngen"], pop_size=sc["pop"]))
+        nd = sc.get("ndset") or {"wt": 1.0, "kind": "negsum", "col": 0}
+        kw.update(nobj=nlat, obj_wt=numpy.ones(nlat), ndset_wt=nd["wt"], ndset_trans=_ndset, ndset_trans_kwargs={"kind": nd["kind"], "col": nd["col"]}, moalgo=MO[enc](ngen=sc["ngen"], pop_size=sc["pop"]))
         mo = True
     else:
         algo = SortingSubsetOptimizationAlgorithm() if (enc == "subset" and sc["exact"]) else SO[enc](ngen=sc["ngen"], pop_size=sc["pop"])
@@ -319,6 +326,19 @@ def execute(sc):
             if max(cnt) - min(cnt) > 1:
                 V.append(viol("xconfig-multiplicities", CC, "subset-even", "chosen crosses used %s times (must differ by at most one)" % cnt))
                 return _out(sc, V, log, faults, probes, True, g)
+        if enc != "subset":
+            allrows = [tuple(r) for r in xmap.tolist()]
+            tot = float(numpy.sum(decn))
+            if len(set(allrows)) == len(allrows) and tot > 0:
+                share = numpy.asarray(decn, dtype=float) * sc["ncross"] / tot
+                cnt = numpy.array([rows.count(r) for r in allrows], dtype=float)
+                dev = numpy.abs(cnt - share)
+                if numpy.any(dev > 1.0 + 1e-9):
+                    i = int(numpy.argmax(dev))
+                    V.append(viol("xconfig-multiplicities", CC, "proportional-share|mate-" + enc,
+                                  "candidate cross %s used %d times, proportional share %.3f of %d crosses" % (list(allrows[i]), int(cnt[i]), float(share[i]), sc["ncross"])))
+                    return _out(sc, V, log, faults, probes, True, g)
+                probes["mate_share_checked"] = 1
     else:
         flat = xc.ravel().tolist()
         if any((not isinstance(v, (int, numpy.integer))) or v < 0 or v >= nt for v in flat):
@@ -362,7 +382,10 @@ def execute(sc):
     if mo:
         ms = misc.get("mosoln")
         if ms is not None:
-            score = 1.0 * _ndset(numpy.asarray(ms.soln_obj))
+            nd = sc.get("ndset") or {"wt": 1.0, "kind": "negsum", "col": 0}
+            score = nd["wt"] * _ndset(numpy.asarray(ms.soln_obj), kind=nd["kind"], col=nd["col"])
+            if nd["wt"] != 1.0 or nd["kind"] != "negsum":
+                faults["declared_preference_varied"] = 1
             best = numpy.flatnonzero(score == score.max())
             ok = any(numpy.array_equal(numpy.asarray(ms.soln_decn[i]), decn) for i in best.tolist())
             if not ok:
